@@ -1,10 +1,38 @@
-(* Props/C02.v -- emitted arguments denote the node's parameters exactly. Axiom-free part. *)
-From Coq Require Import NArith List.
-From SCAD Require Import Text.Chars Text.Lex Text.Emit Text.Lex_proofs.
+(* Props/C02.v -- emitted arguments denote the node's parameters exactly. Axiom-free.
+   Hypothesis per f64: its printed literal reads back to the same binary64 under exact decimal->binary64 conversion
+   (checked exactly on every sampled number); u64 values and strings need no hypothesis. *)
+From Coq Require Import NArith ZArith List Bool String Floats.
+From SCAD Require Import Text.Chars Text.Tree Text.Lex Text.Parse Text.Dec64 Text.Emit Text.Bind Text.Lex_proofs Text.Emit_proofs
+     Text.Parse_proofs Text.Bind_proofs Text.Dec64_proofs Gen.Enums.
 Import ListNotations.
 Local Open Scope N_scope.
+
+(* for every node (all 27 variants, every combination of optional fields and flags, all values): binding the emitted
+   arguments by OpenSCAD's rules gives exactly the parameters the node stands for -- names, values, vectors, presence *)
+Theorem C02_bind_emit_op : forall o : scadop fnum text, op_ok o ->
+  bind (s2t (op_ident fnum text o)) (map erase_arg (args_of fnum text nlit id_text o)) = Some (params_of o).
+Proof. exact bind_emit_op. Qed.
+
+(* every u64 reads back as itself (rounded to binary64 as OpenSCAD stores numbers) *)
+Theorem C02_u64_readback : forall n : N, dec_to_f64 (dec_of_N n) = Some (N_to_float n).
+Proof. exact N_ok_all. Qed.
 
 (* strings: for every string of code points, the emitted literal lexes back to the same characters *)
 Theorem C02_string_readback : forall (s : text) out,
   lrun (LS MDefault out) ([34] ++ flat_map esc_char s ++ [34]) = LS MDefault (TStr s :: out).
 Proof. exact string_readback. Qed.
+
+(* colour names: every variant of the regenerated ScadColor list is one OpenSCAD knows -- except Browns (known finding) *)
+Theorem C02_colours_known_except_browns :
+  forallb (fun n => colour_known n || String.eqb n "Browns") color_names = true /\ colour_known "Browns" = false.
+Proof. split; vm_compute; reflexivity. Qed.
+
+(* keywords: alignment / direction names are emitted as the strings OpenSCAD expects *)
+Theorem C02_keywords :
+  halign_names = ["left"; "center"; "right"]%string /\ valign_names = ["top"; "center"; "baseline"; "bottom"]%string /\
+  direction_names = ["ltr"; "rtl"; "ttb"; "btt"]%string.
+Proof. repeat split; reflexivity. Qed.
+
+(* the hypothesis is satisfiable: a node whose numbers read back *)
+Example C02_op_ok_example : op_ok (Circle (FN 0x1.8p+1%float (s2t "3")) None None (Some 16)).
+Proof. cbn [op_ok onum_ok oN_ok]. split; [vm_compute; reflexivity|]. split; [exact I|]. split; [exact I|apply N_ok_all]. Qed.
